@@ -257,6 +257,13 @@ pub fn check_alloc(ri: usize, input: &[u8], l: &mut Local) -> CaseResult {
             cj(),
         ));
     }
+    // maps are outside the allocation clause, but decoding them must still be total
+    no_panic(|| {
+        let _ = postcard::from_bytes::<std::collections::HashMap<u8, u8>>(input);
+        let _ = postcard::from_bytes::<std::collections::BTreeMap<u16, String>>(input);
+        let _ = postcard::from_bytes::<Vec<std::collections::HashMap<String, u32>>>(input);
+    })
+    .map_err(|p| fail("alloc", format!("decoding a map from these bytes panicked: {}", p), cj()))?;
     l.class(if accepted { "alloc-accepted" } else { "alloc-rejected" });
     l.nontrivial(&(r.name, input));
     l.sample(|| format!("{} <= {} : accepted={} allocated={}B", r.name, hex(&input[..input.len().min(24)]), accepted, m.bytes));
@@ -495,6 +502,50 @@ pub fn run(ctx: &Ctx) {
             let mut b = with_claim(*outer, &[]);
             b.extend(with_claim(*inner, payload));
             check_alloc(*ri, &b, l)
+        },
+    );
+
+    // framed entry points are decoders of untrusted bytes too: never panic, whatever the input
+    let nf = ctx.tier.pick(200_000, 3_000_000);
+    ctx.par_proptest(
+        "framed-decoders-total",
+        nf,
+        || {
+            (
+                gen::arb_shape(ShapeCfg { depth: 2, ..ShapeCfg::default() }),
+                proptest::collection::vec(prop_oneof![4 => 0u8..6, 2 => any::<u8>(), 1 => Just(0xFFu8)], 0..40),
+                0usize..64,
+            )
+        },
+        |(s, b, k), l| {
+            let cj = || case_bytes_json(s, b);
+            l.eval();
+            let apis = super::c10::apis();
+            let api = &apis[*k % apis.len()];
+            match (api.take)(s, b) {
+                Err(p) if p != "skip" => return Err(fail("total", format!("CRC-checked decoding [{}] panicked: {}", api.params.name, p), cj())),
+                _ => {}
+            }
+            match (api.from)(s, b) {
+                Err(p) if p != "skip" => return Err(fail("total", format!("CRC-checked decoding [{}] panicked: {}", api.params.name, p), cj())),
+                _ => {}
+            }
+            let mut copy = b.clone();
+            let (r, _) = with_shape(s, || no_panic(|| postcard::take_from_bytes_cobs::<Dyn>(&mut copy).map(|(d, _)| d)));
+            r.map_err(|p| fail("total", format!("COBS decoding panicked: {}", p), cj()))?;
+            // real collections that ask for a size hint, behind a CRC
+            let c32 = crc::Crc::<u32>::new(&crc::CRC_32_ISCSI);
+            no_panic(|| {
+                let _ = postcard::from_bytes_crc32::<Vec<u8>>(b, c32.digest());
+                let _ = postcard::from_bytes_crc32::<(u8, Vec<u16>, String)>(b, c32.digest());
+                let _ = postcard::from_bytes_crc32::<std::collections::HashMap<u8, u8>>(b, c32.digest());
+                let _ = postcard::from_bytes::<std::collections::HashMap<u8, u8>>(b);
+                let _ = postcard::from_bytes::<std::collections::HashMap<String, Vec<u8>>>(b);
+            })
+            .map_err(|p| fail("total", format!("decoding a real collection panicked: {}", p), cj()))?;
+            l.nontrivial(&(s, b, 11u8));
+            l.class("framed-total");
+            Ok(())
         },
     );
 
